@@ -16,6 +16,7 @@ trees:
   ['name', i]                         defined name i (scalar if single cell, else like 'rng')
   ['bin', op, x, y]  ['neg', x]  ['fn', NAME, arg, ...]
   ['uni', a, b]                      bracketed union of two references as ONE aggregator argument
+  ['anchor', [b,s,r,c], rect]        spill reference C1# to the array formula anchored at that cell (aggregator argument; files only)
   ['undef', NAME]                    a name nobody defines (evaluates to UNSURE here)
   ['fname', i, tree]                 name i of spec['fnames'], defined by the formula `tree` (carried along at every use)
 Functions: SUM MIN MAX COUNT AVERAGE LARGE SMALL IF IFERROR ISERROR ISNA AND OR LEN LEFT UPPER INDEX.
@@ -134,6 +135,8 @@ def flat_args(env, args):
             out += [(v, True) for row in env.rect_values(rect) for v in row]
         elif t == 'ref':
             out.append((env.get(a[1]), True))
+        elif t == 'anchor':
+            out += [(v, True) for row in env.rect_values(a[2]) for v in row]  # the whole area of the array formula anchored there
         elif t == 'uni':
             out += flat_args(env, a[1:])  # a union of references: every area in turn (a cell in two areas counts twice)
         else:
@@ -407,6 +410,8 @@ def refs_of(t, names=None, acc=None):
         refs_of(t[1], names, acc)
     elif k == 'fname':
         refs_of(t[2], names, acc)
+    elif k == 'anchor':
+        acc.append(('rect', tuple(t[2])))
     elif k == 'uni':
         for a in t[1:]:
             refs_of(a, names, acc)
